@@ -1,5 +1,7 @@
 import JetVerif.Props.C04
+import JetVerif.Props.C04P
 open JetVerif.Props.C04
+open JetVerif.Props.C04P
 #print axioms sign_after_operand_is_operator
 #print axioms signArm_rule
 #print axioms int_arithmetic
@@ -13,3 +15,8 @@ open JetVerif.Props.C04
 #print axioms ternary_is_lazy
 #print axioms int_equality_is_integral
 #print axioms int_float_equality
+#print axioms precedence_and_associativity
+#print axioms precedence_after_backup
+#print axioms expression_reads_one_derivation
+#print axioms mul_range_is_mul_div_mod
+#print axioms rel_range_is_relational
